@@ -33,6 +33,14 @@ def one_case(ctx, proc, a, desc, rows, oracle, pending):
             rep.fail('reuse:%s:second-run-differs' % proc, {'proc': proc, 'args': S.jsonable_args(a), 'desc': desc,
                                                            'rows': canon._plain(rows)},
                      {'first': str(S.norm_result(real))[:500], 'second': str(S.norm_result(again))[:500]})
+    # every third case over two or more resources: the consumer reads the resources side by side (datastream())
+    if proc in S.INDEPENDENT and len(rows) >= 2 and 'ok' in real and ctx._reuse_tick % 3 == 0:
+        inter = S.run_interleaved([S.PROCS[proc].real(copy.deepcopy(a))], desc, rows)
+        rep.hist('interleaved', proc)
+        if S.norm_result(inter) != S.norm_result(real):
+            rep.fail('interleaved:%s:differs-from-sequential' % proc,
+                     {'proc': proc, 'args': S.jsonable_args(a), 'desc': desc, 'rows': canon._plain(rows)},
+                     {'sequential': str(S.norm_result(real))[:600], 'side-by-side': str(S.norm_result(inter))[:600]})
     case = {'proc': proc, 'args': S.jsonable_args(a), 'desc': desc, 'rows': canon._plain(rows)}
     nontrivial = 'ok' in real and any(len(r) for r in rows)
     rep.case(proc, case, nontrivial=nontrivial)
